@@ -14,24 +14,36 @@ from harness import c20_util as U
 from translate import c20_formats as T
 
 MANIFEST = dict(
-    technique='Rocq proof (byte-level codec round trips for Hammer command sequences and the scenes.image container, '
-              'separation of printf conversions in SMD lines) + ast translators (struct formats, widths, version tag, '
-              'line templates) + vm_compute correspondence + round-trip/second-generation oracle search on all eight writers',
-    text='Theorems in Props/C20.v: for every configuration satisfying the obligations regenerated from cmdseq.py and every '
-         'representable value (ASCII, NUL-free, within field widths, distinct names) cmdseq.parse(cmdseq.write(v)) = v and the '
-         'second generation is byte-identical; struct unpack inverts pack for the dialect used; the scenes.image container '
-         '(VSIF header, string pool with offset table, CRC-sorted entry table, v2/v3 summaries, blobs; LZMA as a hypothesis '
-         'pair) round-trips and its entry table is sorted by checksum; every line SMD export can write keeps two printf '
-         'conversions apart by whitespace (kernel-checked on the lines regenerated from smd.py). The cmdseq and '
-         'scenes.image models are compared byte for byte with the implementation on every run. Choreo scenes (text, '
-         'binary), scenes.image with real scenes, soundscripts, VMT, PCF and SMD geometry are searched: generated values '
-         'inside each format\'s representable alphabet, write -> read -> equal, write again -> identical, plus the sample '
-         'files under tests/.',
-    note='Partial: proof level for cmdseq (complete) and the scenes.image container; the summary consistency of '
-         'Entry.from_scene, choreo event records, soundscripts, VMT, PCF and SMD geometry are decided by search only. '
-         'Trusted: Coq kernel + vm_compute, translate/c20_formats.py, hand models Fmt/CmdSeq.v and Fmt/ScenesImage.v (tied '
-         'by byte-exact differential runs), CPython struct/lzma/zlib.crc32. Known finding: text VCD flex-animation blocks '
-         'are written but the reader raises NotImplementedError.',
+    technique='Rocq proof (byte-level codec round trips: Hammer command sequences, the scenes.image container driven by a configuration '
+              'regenerated from choreo.py incl. string-pool construction and sort site, binary choreo scenes as layouts with a round-trip '
+              'theorem for every layout; quoted-field lexing for the text writers; field splitting of SMD lines; the scene summary) + five '
+              'fail-closed ast translators (struct formats with the value each field carries on both sides, sort and version sites, line / '
+              'field templates, operator-stack census, width paths of every binary writer/reader pair) + vm_compute correspondence on six '
+              'models + round-trip / second-generation oracle search on all eight writers',
+    text='Theorems in Props/C20.v (43): cmdseq.parse(cmdseq.write(v)) = v and byte-identical second generation for every configuration '
+         'satisfying the obligations regenerated from cmdseq.py; the scenes.image writer over the configuration regenerated from choreo.py '
+         'produces the bytes of the container model for both input forms whatever the dict keys are, parses back (header, pool through '
+         'the offset table, CRC-sorted table, v2/v3 summaries, blobs; LZMA as a hypothesis pair), its table is sorted by the stored '
+         'checksum, the string pool it builds gives every sound back, and equal images give identical files independently of caller '
+         'order / input form; refuted variants for sorting by dict key, by another attribute, and for filling the pool before sorting; '
+         'binary choreo scenes: decoding inverts encoding for EVERY layout (records, counted lists, marker-guarded parts, parts selected '
+         'by a head field or flag bit, nested records), in particular whole scenes with events, tags, ramps, flex tracks, loop / speak / '
+         'gesture tails, at the level of raw field values; the check proves per class that the layout takes exactly the width paths of '
+         'export_binary and of parse_binary; text writers: a field written escaped between quotes is lexed back whatever it holds, a raw '
+         'quoted field when it has no quote / backslash / line break, and the field census of choreo text / soundscripts / VMT regenerated '
+         'from the source satisfies the matching boolean; soundscript operator-stack blocks are paired with the attribute of the same '
+         'name on both sides; SMD: conversions never touch and every data line splits at whitespace into exactly its fields; '
+         'Entry.from_scene: last-speak <= duration, sounds strictly sorted with exactly the used sounds, order independence. '
+         'cmdseq, scenes.image (container, pool+sort), binary scene layout and scene summary models are compared with the implementation '
+         'byte for byte / value for value on every run. All eight writers are searched: generated values inside each format\'s alphabet, '
+         'write -> read -> equal, write again -> identical, plus the sample files under tests/.',
+    note='Partial: proof level for cmdseq (complete), the scenes.image container with pool and sort, binary scenes at raw-field level '
+         '(the float32 / byte quantisation of values and the Python objects behind the raw fields are outside the model), quoted fields of '
+         'the text writers at tokenizer level (not whole text files), SMD data lines at word level; soundscript / VMT / PCF / SMD / choreo '
+         'text whole-file round trips are decided by search only. Trusted: Coq kernel + vm_compute, translate/c20_formats.py, hand models '
+         'Fmt/CmdSeq.v, Fmt/ScenesImage.v, Fmt/ChoreoBin.v layouts, Fmt/SceneSummary.v (each tied by differential runs; the layouts also by '
+         'kernel-checked path equality with the generated paths), the tokenizer model KV/KvLex.v of C01, CPython struct/lzma/zlib.crc32. '
+         'Known finding: text VCD flex-animation blocks are written but the reader raises NotImplementedError.',
 )
 
 IMP_CS = ['Coq.Lists.List', 'Coq.NArith.NArith', 'Coq.ZArith.ZArith', 'Coq.Bool.Bool', 'SV.Fmt.CmdSeq', 'SV.Gen.CmdSeqFmt_gen']
@@ -571,7 +583,10 @@ def corr_image_pool(ck: Ck) -> None:
                 def rec(x: str, req=req) -> int:
                     req.append(x)
                     return 0
-                e._data.export_binary(rec)
+                try:
+                    e._data.export_binary(rec)
+                except Exception:      # a broken binary writer: the save below fails too and is compared as such
+                    pass
             strs.append(req)
         f = io.BytesIO()
         try:
@@ -583,6 +598,10 @@ def corr_image_pool(ck: Ck) -> None:
             data = None
             exp = 'None'
             ck.hist('image_pool_case', 'struct.error')
+        except Exception as e:     # anything else is not a refusal the model knows: compared as an (impossible) empty file
+            data = None
+            exp = 'Some []'
+            ck.hist('image_pool_case', 'error:' + type(e).__name__)
         lits = []
         final_pool = list(pool_obj)
         if data is not None and not any(isinstance(e._data, tuple) for e in ents):
@@ -704,6 +723,7 @@ def corr_choreo_bin(ck: Ck) -> None:
     from srctools import binformat
     n = ck.budget(40, 400)
     cases = []
+    impl_errors: list[dict] = []
     for _ in range(n):
         spec = U.scene_gen(ck.rng, 'binary', flex_p=0.3)
         try:
@@ -712,12 +732,24 @@ def corr_choreo_bin(ck: Ck) -> None:
             ck.count('generator_rejected_by_constructor')
             continue
         pool: list[str] = []
-        data = sc.export_binary(binformat.find_or_insert(pool, lambda x: x))
-        cases.append((cb_scene_value(sc, pool), data, spec))
+        try:
+            data = sc.export_binary(binformat.find_or_insert(pool, lambda x: x))
+            val = cb_scene_value(sc, pool)
+        except Exception as e:       # the writer refuses a representable scene: reported as a disagreement (the model encodes it)
+            impl_errors.append({'spec': spec, 'error': repr(e)[:300]})
+            ck.hist('choreo_bin_case', 'error:' + type(e).__name__)
+            continue
+        cases.append((val, data, spec))
         ck.count('choreo_bin_cases')
         ck.hist('choreo_bin_events', sum(1 for _ in sc.iter_events()))
         if len(data) > 60:
             ck.seen(('cb', data))
+    if impl_errors:
+        ck.obligation('correspondence:vcd-binary-layout', False, f'Scene.export_binary raised on {len(impl_errors)} representable scenes '
+                      f'(the layout model encodes them): {impl_errors[0]["error"]}')
+        ck.tie_broken.append('correspondence binary choreo layout: the writer raises on representable scenes')
+        ck.extra['choreo_bin_disagreement'] = impl_errors[0]
+        return
     if not cases:
         ck.obligation('correspondence:vcd-binary-layout', False, 'no scene could be built')
         return
@@ -784,9 +816,13 @@ def corr_summary(ck: Ck) -> None:
         if not ok:
             ck.count('summary_time_not_representable')
             continue
-        ent = Entry.from_scene('x.vcd', sc)
-        exp = f'(({ent.duration_ms})%Z, ({ent.last_speak_ms})%Z, {coq_list(nl(map(ord, x)) for x in ent.sounds)})'
-        cases.append((f'({coq_list(lits)}, {exp})', {'spec': spec, 'summary': [ent.duration_ms, ent.last_speak_ms, list(ent.sounds)]}))
+        try:
+            ent = Entry.from_scene('x.vcd', sc)
+            exp = f'(({int(ent.duration_ms)})%Z, ({int(ent.last_speak_ms)})%Z, {coq_list(nl(map(ord, x)) for x in ent.sounds)})'
+        except Exception as e:
+            ck.hist('summary_case', 'error:' + type(e).__name__)
+            exp = '((-1)%Z, (-1)%Z, [])'          # never equal to the model's value: counted as a disagreement
+        cases.append((f'({coq_list(lits)}, {exp})', {'spec': spec, 'summary': exp[:300]}))
         ck.count('summary_cases')
         ck.hist('summary_events', len(evs))
         if len(evs) >= 2:
@@ -1057,16 +1093,29 @@ def run(ck: Ck) -> None:
         t_last[0] = now
     ck.rule = ('per format a seeded generator of JSON-able value specs restricted to the format\'s representable alphabet '
                '(harness/c20_util.py documents each alphabet); a case is distinct by its full spec and counted as non-trivial '
-               'when the spec is longer than 150 characters (it has at least one record with optional parts); cmdseq / '
-               'scenes.image correspondence cases are distinct by file bytes and non-trivial when they contain a command / two entries')
-    ck.trusted.append('hand-written models Fmt/CmdSeq.v, Fmt/ScenesImage.v (tied by byte-exact differential correspondence on every run)')
-    ck.trusted.append('CPython struct (float32 conversion of the version tag), lzma and zlib.crc32 (outside the models)')
+               'when the spec is longer than 150 characters (it has at least one record with optional parts); correspondence cases '
+               '(cmdseq, scenes.image container, scenes.image pool+sort, binary scene layout, scene summary) are distinct by file bytes / spec '
+               'and non-trivial when they contain a command / two entries / more than 60 bytes / two events')
+    ck.trusted.append('hand-written models Fmt/CmdSeq.v, Fmt/ScenesImage.v, Fmt/ScenesImageCfg.v (writer over the generated configuration), '
+                      'Fmt/ChoreoBin.v (layouts), Fmt/SceneSummary.v: tied by byte-exact / value-exact differential correspondence on every run; '
+                      'the layouts additionally by kernel-checked equality of their width paths with the paths regenerated from choreo.py')
+    ck.trusted.append('KV/KvLex.v (tokenizer model of C01) for the quoted-field theorems; the escape table is tied to tokenizer.py by C01')
+    ck.trusted.append('CPython struct (float32 conversion of the version tag and of scene times), lzma and zlib.crc32 (outside the models)')
     ck.assumptions += [
         'scenes.image: LZMA enters the theorem as a store/unstore pair with unstore (store d) = d; real payloads start with "bvcd", never with "LZMA"',
+        'scenes.image pool model: the blob of a scene-backed entry is taken as the bytes export_binary produces on the final pool; that it only '
+        'depends on the pool through the indexes is covered by the binary-layout correspondence, not by the pool theorem',
+        'binary choreo layouts work on raw field values: float32 bit patterns, the byte / 16-bit value already quantised, pool indexes; '
+        'the quantisation round(v*255) and the string pool lookups are exercised by the search, not modelled',
+        'text writers: the string mode of srctools.tokenizer.Tokenizer is the same code for every configuration with escapes enabled '
+        '(Keyvalues.parse for soundscripts, plain Tokenizer for text choreo scenes); VMT is read with escapes disabled: its census is an '
+        'obligation only, the lexing theorem is not claimed for it',
+        'scene summary: event times are non-negative float32 values (value * 1000.0 is then exact in double arithmetic)',
         'PCF: element UUIDs are fresh random values on every export (Particle has no UUID field); second-generation identity is checked with srctools.dmx.get_uuid replaced by a counter',
         'representable alphabets exclude: NUL / non-ASCII / over-long strings (cmdseq); quotes, comment starters and file extensions in SMD names; '
         'quote and backslash in soundscript strings; quote in VMT strings; single-link SMD vertices with weight != 1; '
-        'event-ramp edges without samples, time_zoom_lookup (VCD text); text-only fields in binary scenes and vice versa',
+        'event-ramp edges without samples, time_zoom_lookup (VCD text); text-only fields in binary scenes and vice versa; '
+        'last_speak_ms >= 2^31 in a version-3 scenes.image (signed field: struct.error, model returns None)',
     ]
     ok1 = ck.translate('CmdSeqFmt_gen', T.translate_cmdseq)
     ok2 = ck.translate('SmdTpl_gen', T.translate_smd)
@@ -1111,6 +1160,9 @@ def run(ck: Ck) -> None:
             'smd_line_census_nonempty': 'Nat.leb 10 (length smd_lines)',
             'smd_every_conversion_delimited_by_whitespace_except_the_quoted_bone_name_line':
                 'forallb (fun l => delim true l || has_quote l) smd_lines && Nat.leb (length (filter has_quote smd_lines)) 1',
+            'smd_bone_line_is_index_quoted_name_parent': 'forallb (fun l => negb (has_quote l) || nodes_line_shape l) smd_lines '
+                                                         '&& Nat.eqb (length (filter has_quote smd_lines)) 1',
+            'smd_bone_line_pattern_is_the_modelled_one': 'smd_bytes_eqb smd_nodes_regex nodes_regex',
         })
     if built and ok4:
         m_imps += IMP_TXT
@@ -1192,14 +1244,17 @@ def run(ck: Ck) -> None:
     ck.sample({'smd_lines_from_source': ck.extra.get('translated', {}).get('SmdTpl_gen', {}).get('lines', [])[:6]})
     # ---- broken obligations explained by concrete inputs
     keys = [v['key'] for v in ck.violations]
-    if any(k.startswith('smd:read-error') for k in keys):
-        ck.explain('instance:smd_numeric_fields_separated')
+    if any(k.startswith('smd:read-error') or k.startswith('smd:value-diff') for k in keys):
+        ck.explain('instance:smd_')
     if any(k.startswith('cmdseq:') for k in keys):
         for o in ('instance:cmdseq_', 'correspondence:cmdseq'):
             ck.explain(o)
     if any(k.startswith(('vcd-binary:', 'scenes-image:read-error', 'scenes-image:value-diff', 'scenes-image:write-error')) for k in keys):
         ck.explain('instance:vcd_binary_')
         ck.explain('translate:ChoreoBin_gen')
+        ck.explain('correspondence:vcd-binary-layout')
+    if any(k.startswith('scenes-image:summary-inconsistent') for k in keys):
+        ck.explain('correspondence:scene-summary')
     for pre, ob in (('sndscript:', 'instance:sndscript_'), ('vmt:', 'instance:vmt_'), ('vcd-text:', 'instance:vcd_text_')):
         if any(k.startswith(pre) and not k.endswith('flex-animation-block') for k in keys):
             ck.explain(ob)
